@@ -862,7 +862,9 @@ class Interp:
                 fixed = L.alt(L.eps(), L.cat(L.sigma_star(), non))
             else:
                 fixed = L.alt(L.eps(), L.cat(non, L.sigma_star()))
-            lang = recv.lang.substring_closure() & fixed.minimized()
+            # what remains is a factor of the receiver: a prefix for rstrip, a suffix for lstrip
+            rest = recv.lang.substring_closure() if left and right else (recv.lang.prefix_closure() if right else recv.lang.suffix_closure())
+            lang = rest & fixed.minimized()
             tag = (getattr(e, "lineno", 0), m, mask, norm(e))
             return Str(lang, recv.strips + (tag,))
         if m in ("encode", "decode"):
